@@ -20,6 +20,11 @@ CLAIMED = {
             "model = implementation checked differentially",
             "RFC parser spec hand-written; in-range arguments as the property states",
             "Coq proof (parser prefix-stability + induction over operations) + regenerated struct formats + differential correspondence"),
+    "C20": ("Coq theorems for every host string, every digit string and arbitrary exists/IPv6 oracles: the three documented shapes, "
+            "bracketed IPv6, family selection, and the enumerated rejections, over an executable model of parse_server "
+            "(str.split/partition, int(), IPv4Address acceptance modelled); model = implementation checked on the enumerated grammar and random edits",
+            "ASCII input; os.path.exists and IPv6Address are oracle inputs; CPython int()/ipaddress modelled and validated by correspondence",
+            "Coq proof (split/join lemmas, digit-string induction) + differential correspondence via extraction"),
 }
 NOT_YET = "check not built yet in this session (planned Coq model in DESIGN.md §3); not claimed"
 
